@@ -62,6 +62,14 @@ def run(tier, replay_file=None):
     hn, _ = gen.histories("Abm", consts(1, 1, 4, 100, '{0,100,200}', '{"Create","Send","NewScheduler","RunStep"}'), 8, defs=NSC, extra_cfg={"action_constraints": ["MC_Nsc"]})
     sets.append((hn, 100, None))
     R.cov["bfs_histories_scheduler_replaced"] = len(hn)
+    # an agent that, inside one act(), deletes another agent and creates a replacement (the population keeps its size), and an
+    # event sent to the replacement's id afterwards: every history Create, Create, PlanDel, PlanNew, Plan, RunStep x 3
+    REP = ('MC_Rep == LET n == Len(hist\') h == hist\'[n] IN /\\ (n \\in {1, 2} => h.op = "Create") /\\ (n = 3 => h.op = "PlanDel" /\\ h.k = 0 /\\ h.snd # h.victim)\n'
+           '             /\\ (n = 4 => h.op = "PlanNew" /\\ h.k = 0) /\\ (n = 5 => h.op = "Plan" /\\ h.k = 1) /\\ (n >= 6 => h.op = "RunStep")\n')
+    hr, _ = gen.histories("Abm", dict(consts(3, 1, 3, 100, '{0,100}', '{"Create","PlanDel","PlanNew","Plan","RunStep"}'), MaxPlans='3'), 8,
+                          defs=REP, extra_cfg={"action_constraints": ["MC_Rep"]})
+    sets.append((hr, 100, None))
+    R.cov["bfs_histories_replaced_agent"] = len(hr)
     nsim = 0
     menus = [(100, '{0,100,200,300}'), (50, '{0,30,50,70,100,150}'), (10, '{0,10,20,30,70,100}'),
              (25, '{0,25,50,60,75,100}'), (20, '{0,20,40,60,100}')]
